@@ -6,12 +6,15 @@ import MpVerif.C19.Model
 * `copy <s0> <d0> <len>`                  -> `ok`      CopyLink entry
 * `m2m <s0> <slen> <d0> <dlen>`           -> `ok`      Many2Many/One2Many entry
 * `slack <s> <con> <slk>`                 -> `ok`      Range2Slk entry
+* `bases <b0> <b1> ..` / `acopy <link> <sn> <sb> <dn> <db> <len>` / `am2m <link> <sn> <sb> <slen> <dn> <db> <dlen>` /
+  `aslack <link> <sn> <si> <cn> <ci> <vn> <vi>` -> `ok`;  `sched` -> `entries=<n>`   schedule built through the AddEntry model
 * `run`                                   -> `run wellfed=<b> topo=<b> sib=<b> closed=<b> noclash=<b> edges=<n>`
 * `con <cell>` / `var <cell>`             -> `<hex>`   delivered name of a constraint / variable-or-objective cell
 * `dvars <cell>..` / `dcons <cell>..`     -> `belowfree=<b> uncounted=<b> covered=<b>`   hypotheses on a set of delivered cells
 * `sf <hex> <hex> ...`                    -> `<b>`     suffixFreeB
 * `np <mode> <colhex|-|0> <rowhex|-|0> <nv> <ndv> <ncon> <nalg> <nobj> <objno> <multi>`
       -> `none` | `error` | `names V <hex>.. C <hex>.. O <hex>..`   (`-` absent file, `0` empty file)
+* `inames <nv> <ndv> <ncon> <nalg> <nobj>`   -> `names V .. C .. O ..`   names invented by BasicProblem::item_name (graph export without names)
 * `file <hex>`                            -> `error` | `nread=<n> <hex>..`   names via NameProvider::name(0..nread-1)
 No logic here: every answer is a call of a model function. -/
 open MpVerif.C19
@@ -46,6 +49,8 @@ structure DSt where
   fin : St := {}
   E : List Edge := []
   R : List (Nat × Nat) := []
+  bases : List Nat := []
+  sched : List Entry := []   -- most recent first
 
 def b2s (b : Bool) : String := if b then "1" else "0"
 
@@ -71,13 +76,32 @@ def handle (d : DSt) (ws : List String) : DSt × String :=
     match a.toNat?, b.toNat?, c.toNat? with
     | some a, some b, some c => ({ d with ops := (expandSlack a b c).reverse ++ d.ops }, "ok")
     | _, _, _ => (d, "bad-op")
+  | "bases" :: bs =>
+    match bs.mapM String.toNat? with
+    | some l => ({ d with bases := l, sched := [] }, "ok")
+    | none => (d, "bad-op")
+  | "acopy" :: args =>
+    match args.mapM String.toNat? with
+    | some [l, sn, sb, dn, db, len] => ({ d with sched := addCopy d.sched l sn sb dn db len }, "ok")
+    | _ => (d, "bad-op")
+  | "am2m" :: args =>
+    match args.mapM String.toNat? with
+    | some [l, sn, sb, sl, dn, db, dl] => ({ d with sched := addM2M d.sched l sn sb sl dn db dl }, "ok")
+    | _ => (d, "bad-op")
+  | "aslack" :: args =>
+    match args.mapM String.toNat? with
+    | some [l, sn, si, cn, ci, vn, vi] => ({ d with sched := Entry.slack l sn si cn ci vn vi :: d.sched }, "ok")
+    | _ => (d, "bad-op")
+  | ["sched"] =>
+    -- turn the schedule built by AddEntry into the operation list (then `run`)
+    ({ d with ops := (schedOps (fun n => d.bases.getD n 0) d.sched).reverse }, s!"entries={d.sched.length}")
   | ["run"] =>
     let ops := d.ops.reverse
     let fin := run d.init ops
     let E := edges d.init ops
     let R := plainClosure E.length E (plainPairs E)
     ({ d with fin := fin, E := E, R := R },
-     s!"run wellfed={b2s (wellFed d.init ops)} topo={b2s (topoB d.roots ops)} sib={b2s (sibDistinctB E)} closed={b2s (closedB E R)} noclash={b2s (noClashB E R)} edges={E.length}")
+     s!"run wellfed={b2s (wellFed d.init ops)} topo={b2s (topoB d.roots ops)} sib={b2s (sibDistinctB E)} closed={b2s (closedB E R)} noclash={b2s (noClashB E R)} edges={E.length} arms={",".intercalate ((armCounts d.init (List.replicate 8 0) ops).map toString)}")
   | ["con", c] =>
     match c.toNat? with
     | some c => (d, toHex (deliveredConName d.fin c))
@@ -108,6 +132,12 @@ def handle (d : DSt) (ws : List String) : DSt × String :=
       | .names o =>
         (d, s!"names V {outNames o.vars} C {outNames o.cons} O {outNames o.objs}")
     | _, _, _, _, _, _, _, _, _, _ => (d, "bad-op")
+  | ["inames", nv, ndv, ncon, nalg, nobj] =>
+    match nv.toNat?, ndv.toNat?, ncon.toNat?, nalg.toNat?, nobj.toNat? with
+    | some nv, some ndv, some ncon, some nalg, some nobj =>
+      let (v, c, o) := itemNamesModel nv ndv ncon nalg nobj
+      (d, s!"names V {" ".intercalate (v.map toHex)} C {" ".intercalate (c.map toHex)} O {" ".intercalate (o.map toHex)}")
+    | _, _, _, _, _ => (d, "bad-op")
   | ["file", h] =>
     match fileArg h with
     | some f =>
